@@ -75,15 +75,17 @@ def setOptional (v : Bool) (m : Node) : Node :=
 
 /-- static key name of a member (identifier or string literal key) -/
 def memberKeyName (m : Node) : Option (Option String) :=   -- none: no key at all (call signature)
-  let key : Option Node :=
+  -- the key and the member's `computed` flag
+  let key : Option (Node × String) :=
     match m with
-    | .mk .tsPropSig _ (k :: _) => some k
-    | .mk .tsMethodSig _ (k :: _) => some k
-    | .mk .tsGetterSig _ (k :: _) => some k
+    | .mk .tsPropSig as (k :: _) => some (k, as.getD 1 "false")
+    | .mk .tsMethodSig as (k :: _) => some (k, as.headD "false")
+    | .mk .tsGetterSig as (k :: _) => some (k, as.headD "false")
     | _ => none
-  key.map fun k =>
+  key.map fun (k, computed) =>
+    -- `static_key_name`: `name`, `'name'`, `['name']` - not `[name]`, which is named by the value of `name`
     match k with
-    | .mk .ident (n :: _) _ => some n
+    | .mk .ident (n :: _) _ => if computed == "true" then none else some n
     | .mk .str (v :: _) _ => some v
     | _ => none
 
@@ -390,7 +392,7 @@ structure PropIr where
 /-- `extract_prop_name(expr, computed)` -/
 def extractPropName (key : Node) (computed : Bool) (st : St) : Node × St :=
   match key with
-  | .mk .ident (n :: _) _ => (nIdentName n, st)
+  | .mk .ident (n :: r) ks => if computed then (nComputed (.mk .ident (n :: r) ks), st) else (nIdentName n, st)
   | .mk .str as ks => (.mk .str as ks, st)
   | .mk .num as ks => (.mk .num as ks, st)
   | .mk .bigint as ks => (.mk .bigint as ks, st)
